@@ -128,6 +128,8 @@ fn self_signed_ca(cn: &str) -> (X509, PKey<Private>) {
 struct Fixtures {
   id1: Identity,
   id2: Identity,
+  /// a third identity issued by the shipped CA; never takes part, only its GUID is claimed by others
+  id3: Identity,
   /// issued by a foreign CA with the same subject name as the shipped one
   foreign: Identity,
 }
@@ -138,6 +140,7 @@ fn fixtures() -> &'static Fixtures {
     let ca_cert = X509::from_pem(CA_CERT.as_bytes()).expect("C19: shipped identity CA certificate");
     let ca_key = PKey::private_key_from_pem_passphrase(CA_KEY.as_bytes(), b"password123").expect("C19: shipped identity CA key");
     let (c2, k2) = issue("participant2_common_name", &ca_cert, &ca_key, 2);
+    let (c3, k3) = issue("participant3_common_name", &ca_cert, &ca_key, 4);
     let (fca, fkey) = self_signed_ca("identity_ca_common_name");
     let (cm, km) = issue("participant2_common_name", &fca, &fkey, 3);
     Fixtures {
@@ -149,6 +152,11 @@ fn fixtures() -> &'static Fixtures {
       id2: Identity {
         cert_pem: c2,
         key_pem: k2,
+        ca_pem: CA_CERT.to_string(),
+      },
+      id3: Identity {
+        cert_pem: c3,
+        key_pem: k3,
         ca_pem: CA_CERT.to_string(),
       },
       foreign: Identity {
@@ -249,18 +257,35 @@ fn ordered(a: Party, b: Party) -> (Party, Party) {
   }
 }
 
-fn genuine_run(ida: &Identity, idb: &Identity, seeds: (u8, u8), wrong_guid_initiator: bool) -> Result<Run, String> {
+/// a GUID that is not bound to the certificate of the party that claims it
+#[derive(Clone, Copy, Debug, PartialEq, Eq)]
+enum Claim {
+  /// its own GUID (genuine)
+  Own,
+  /// its own GUID with some bits changed
+  Flipped,
+  /// the GUID that a third identity issued by the same CA derives from *its* certificate
+  OfThirdIdentity,
+}
+
+fn claimed_pdata(own: &Party, claim: Claim) -> Vec<u8> {
+  match claim {
+    Claim::Own => own.pdata.clone(),
+    Claim::Flipped => {
+      let mut p = own.guid.prefix.bytes;
+      p[0] ^= 0x40;
+      p[3] ^= 0x11;
+      pdata_for(GUID::new(GuidPrefix::new(&p), EntityId::PARTICIPANT))
+    }
+    Claim::OfThirdIdentity => party(&fixtures().id3, own.guid.prefix.bytes[11] ^ 0x5a).pdata,
+  }
+}
+
+fn genuine_run(ida: &Identity, idb: &Identity, seeds: (u8, u8), claim: Claim) -> Result<Run, String> {
   let (mut i, mut r) = ordered(party(ida, seeds.0), party(idb, seeds.1));
   introduce(&mut i, &mut r)?;
-  let pdata_i = if wrong_guid_initiator {
-    // a CA-issued identity that claims a GUID which is not derived from its certificate
-    let mut p = i.guid.prefix.bytes;
-    p[0] ^= 0x40;
-    p[3] ^= 0x11;
-    pdata_for(GUID::new(GuidPrefix::new(&p), EntityId::PARTICIPANT))
-  } else {
-    i.pdata.clone()
-  };
+  // (other than Own:) a CA-issued identity that claims a GUID which is not derived from its certificate
+  let pdata_i = claimed_pdata(&i, claim);
   let (_, hs, request) = i.auth.begin_handshake_request(i.handle, i.peer, pdata_i).map_err(|e| format!("begin_handshake_request: {e:?}"))?;
   i.hs = hs;
   let (_, hs, reply) = r
@@ -395,7 +420,7 @@ pub fn run(_scenario: u32, choices: &[u8], _strict: bool) -> Outcome {
   });
 
   // ---------------------------------------------------------------- (1) the genuine run, twice (a donor of other values)
-  let genuine = match genuine_run(ida, idb, seeds, false) {
+  let genuine = match genuine_run(ida, idb, seeds, Claim::Own) {
     Ok(r) => r,
     Err(e) => {
       o.violate("c19.genuine-handshake-fails", "no-fault", format!("two CA-issued identities could not complete the handshake: {e}"));
@@ -419,6 +444,8 @@ pub fn run(_scenario: u32, choices: &[u8], _strict: bool) -> Outcome {
   let stage = [Stage::Request, Stage::Reply, Stage::Final, Stage::Completed][c.weighted(&[3, 5, 5, 2])];
   let fault_kind = c.weighted(&[10, 2, 3, 2, 2]);
   let (mut i, mut r) = ordered(party(ida, seeds.0), party(idb, seeds.1));
+  // which identity ended up as the replier (the order is decided by the derived GUIDs)
+  let (id_of_replier, seed_of_replier) = if r.guid == party(idb, seeds.1).guid { (idb, seeds.1) } else { (ida, seeds.0) };
   if let Err(e) = introduce(&mut i, &mut r) {
     o.violate("c19.genuine-handshake-fails", "introduce", e);
     return o;
@@ -484,14 +511,23 @@ pub fn run(_scenario: u32, choices: &[u8], _strict: bool) -> Outcome {
         }
       }
       _ => {
-        *what = "request of a CA-issued identity claiming a GUID not derived from its certificate".into();
-        match genuine_run(ida, idb, seeds, true) {
+        let claim = if c.bool() { Claim::OfThirdIdentity } else { Claim::Flipped };
+        let how = if claim == Claim::Flipped { "its own GUID with bits changed" } else { "the GUID of a third identity issued by the same CA" };
+        if stage == Stage::Reply {
+          // the replier's identity presents its own certificate and key, but another GUID
+          if let Some(t) = attacker_reply_claiming(due_request, id_of_replier, seed_of_replier, claim) {
+            *what = format!("guid-not-bound: a consistent reply built by hand, CA-issued certificate, claiming {how}");
+            return t;
+          }
+        }
+        *what = format!("request of a CA-issued identity claiming {how}");
+        match genuine_run(ida, idb, seeds, claim) {
           // the run itself must fail at the replier; we only want its request
           Ok(run) => {
-            *what = "COMPLETED handshake of a CA-issued identity claiming a GUID not derived from its certificate".into();
+            *what = format!("COMPLETED handshake of a CA-issued identity claiming {how}");
             run.request
           }
-          Err(_) => wrong_guid_request(ida, idb, seeds).unwrap_or_else(|| donor.request.clone()),
+          Err(_) => wrong_guid_request(ida, idb, seeds, claim).unwrap_or_else(|| donor.request.clone()),
         }
       }
     }
@@ -691,6 +727,10 @@ pub fn run(_scenario: u32, choices: &[u8], _strict: bool) -> Outcome {
 /// is consistent (hashes, challenge, dh1, signature by the key that belongs to the presented
 /// certificate, GUID derived from that certificate); only the certificate's issuer is wrong.
 fn attacker_reply(request: &HandshakeMessageToken, id: &Identity, seed: u8) -> Option<HandshakeMessageToken> {
+  attacker_reply_claiming(request, id, seed, Claim::Own)
+}
+
+fn attacker_reply_claiming(request: &HandshakeMessageToken, id: &Identity, seed: u8, claim: Claim) -> Option<HandshakeMessageToken> {
   use byteorder::BigEndian;
 
   use crate::{
@@ -700,7 +740,7 @@ fn attacker_reply(request: &HandshakeMessageToken, id: &Identity, seed: u8) -> O
   let get = |name: &str| request.data_holder.binary_properties.iter().find(|p| p.name == name).map(|p| p.value.clone());
   // the GUID an honest instance would derive from this certificate
   let honest = party(id, seed);
-  let pdata = bytes::Bytes::from(honest.pdata.clone());
+  let pdata = bytes::Bytes::from(claimed_pdata(&honest, claim));
   let c_id = bytes::Bytes::from(id.cert_pem.clone().into_bytes());
   let c_perm = bytes::Bytes::new();
   let dsign = bytes::Bytes::from_static(b"ECDSA-SHA256");
@@ -776,12 +816,9 @@ fn foreign_run(foreign: &Identity, genuine: &Identity, seeds: (u8, u8)) -> Optio
   Some((request, reply, fin))
 }
 
-fn wrong_guid_request(ida: &Identity, idb: &Identity, seeds: (u8, u8)) -> Option<HandshakeMessageToken> {
+fn wrong_guid_request(ida: &Identity, idb: &Identity, seeds: (u8, u8), claim: Claim) -> Option<HandshakeMessageToken> {
   let (mut i, mut r) = ordered(party(ida, seeds.0), party(idb, seeds.1));
   introduce(&mut i, &mut r).ok()?;
-  let mut p = i.guid.prefix.bytes;
-  p[0] ^= 0x40;
-  p[3] ^= 0x11;
-  let pdata = pdata_for(GUID::new(GuidPrefix::new(&p), EntityId::PARTICIPANT));
+  let pdata = claimed_pdata(&i, claim);
   i.auth.begin_handshake_request(i.handle, i.peer, pdata).ok().map(|(_, _, t)| t)
 }
